@@ -39,11 +39,15 @@ func runC16(p *Prog, r *Report) {
 	r.MinInstances["C16.R2"] = 1
 	r.MinInstances["C16.R3"] = 3
 	r.MinInstances["C16.R4"] = 10
+	r.MinInstances["C16.R6"] = 3
+	r.MinInstances["C16.R7"] = 1
 	c16R1R2(p, r)
 	c16R3(p, r)
 	c16R4(p, r)
 	loopVarAliasRule(p, r, "C16.R5")
 	c16More(p, r)
+	c16R6R7(p, r)
+	c16R8(p, r)
 }
 
 const viperPkg = "github.com/spf13/viper"
@@ -171,6 +175,58 @@ func c16R1R2(p *Prog, r *Report) {
 						break
 					}
 					errVals[hc] = true
+				}
+				// ... and the results of module helpers that wrap it without ever turning a failure
+				// into nil (every return of something that may be nil is on the helper's err == nil side)
+				for changed := true; changed; {
+					changed = false
+					for ev := range errVals {
+						if ev.Referrers() == nil {
+							continue
+						}
+						for _, ref := range *ev.Referrers() {
+							hc, ok := ref.(*ssa.Call)
+							if !ok || errVals[hc] || hc.Call.StaticCallee() == nil || !isModuleFn(hc.Call.StaticCallee()) || hc.Call.StaticCallee().Blocks == nil {
+								continue
+							}
+							h := hc.Call.StaticCallee()
+							if h.Signature.Results().Len() != 1 || !isErrorType(h.Signature.Results().At(0).Type()) || len(h.Params) != len(hc.Call.Args) {
+								continue
+							}
+							for k, a := range hc.Call.Args {
+								if a != ev {
+									continue
+								}
+								keeps := true
+								Instrs(h, func(y ssa.Instruction) {
+									ret, ok := y.(*ssa.Return)
+									if !ok || definitelyNonNilError(ret.Results[0]) {
+										return
+									}
+									onNil := false
+									for _, ci := range controllingIfs(ret.Block()) {
+										bo, ok := ci.If.Cond.(*ssa.BinOp)
+										if !ok || bo.X != ssa.Value(h.Params[k]) {
+											continue
+										}
+										if cst, isC := bo.Y.(*ssa.Const); !isC || !cst.IsNil() {
+											continue
+										}
+										if (bo.Op == token.EQL && ci.Branch == 0) || (bo.Op == token.NEQ && ci.Branch == 1) {
+											onNil = true
+										}
+									}
+									if !onNil {
+										keeps = false
+									}
+								})
+								if keeps {
+									errVals[hc] = true
+									changed = true
+								}
+							}
+						}
+					}
 				}
 				// error checked: the rename (or the call that leads to it) lies on the err == nil side
 				for _, at := range append([]ssa.Instruction{ren}, rd.Path...) {
@@ -341,6 +397,22 @@ func c16R4(p *Prog, r *Report) {
 		for _, st := range StoresTo(fn, cu.Obj().Name(), "tag") {
 			if s, ok := constString(st.Val); ok {
 				tags[strings.ToLower(s)] = true
+			}
+			// the tag handed in by the callers of a publishing helper
+			if prm, isPrm := st.Val.(*ssa.Parameter); isPrm && prm.Parent() == fn {
+				sites, _ := p.staticCallSites(fn)
+				for k, pp := range fn.Params {
+					if pp != prm {
+						continue
+					}
+					for _, site := range sites {
+						if cc := CallOf(site); cc != nil && k < len(cc.Args) {
+							if s, ok := constString(cc.Args[k]); ok {
+								tags[strings.ToLower(s)] = true
+							}
+						}
+					}
+				}
 			}
 		}
 	}
